@@ -42,7 +42,7 @@ pub fn history_for(cfg: &Cfg, h: u64, is_set: bool) -> (usize, (i32, i32), Vec<O
     let profs = profiles(cfg.thorough);
     let sel: Vec<&OProf> = match cfg.get("profile") {
         Some(name) => profs.iter().filter(|p| name.split(',').any(|n| n == p.name)).collect(),
-        None => profs.iter().collect(),
+        None => profs.iter().filter(|p| p.name != "marathon").collect(),
     };
     let p = sel[(crate::util::mix(h, 0x50524F46) % sel.len() as u64) as usize];
     let mut p = p.clone();
